@@ -198,6 +198,7 @@ pub fn worker_main(fam: &dyn Family, tier: Tier, w: usize, k: usize, from: usize
 
 #[derive(Default)]
 pub struct FamilyResult {
+    pub crash_cases: Vec<(usize, String)>,
     pub evaluations: u64,
     pub tags: BTreeMap<String, u64>,
     pub nontrivial: BTreeSet<String>,
@@ -393,7 +394,7 @@ pub fn run_family(fam: &dyn Family, tier: Tier, wall_cap: Duration) -> FamilyRes
 pub struct Known {
     pub id: String,
     pub properties: Vec<String>,
-    pub class: String,
+    pub classes: Vec<String>,
     /// all of these substrings must occur in the site
     pub site_all: Vec<String>,
     pub what: String,
@@ -411,7 +412,7 @@ pub fn load_known(path: &str) -> Vec<Known> {
         out.push(Known {
             id: e["id"].as_str().unwrap_or("").to_string(),
             properties: e["properties"].as_array().into_iter().flatten().filter_map(|x| x.as_str().map(|s| s.to_string())).collect(),
-            class: e["class"].as_str().unwrap_or("").to_string(),
+            classes: e["classes"].as_array().into_iter().flatten().filter_map(|x| x.as_str().map(|s| s.to_string())).chain(e["class"].as_str().map(|s| s.to_string())).collect(),
             site_all: e["site_all"].as_array().into_iter().flatten().filter_map(|x| x.as_str().map(|s| s.to_string())).collect(),
             what: e["what"].as_str().unwrap_or("").to_string(),
             fixed: e["status"].as_str() == Some("fixed"),
@@ -421,7 +422,7 @@ pub fn load_known(path: &str) -> Vec<Known> {
 }
 
 pub fn match_known<'a>(known: &'a [Known], property: &str, class: &str, site: &str) -> Option<&'a Known> {
-    known.iter().find(|k| !k.fixed && k.properties.iter().any(|p| p == property) && k.class == class && k.site_all.iter().all(|s| site.contains(s.as_str())))
+    known.iter().find(|k| !k.fixed && k.properties.iter().any(|p| p == property) && k.classes.iter().any(|c| c == class) && k.site_all.iter().all(|s| site.contains(s.as_str())))
 }
 
 // ------------------------------------------------------------------ check = families for one property
@@ -451,8 +452,12 @@ pub fn run_check(property: &'static str, fams: &[&dyn Family], tier: Tier, verif
     let mut exhaustive = true;
     let mut level = "exploration";
     let mut rules = Vec::new();
-    for fam in fams {
-        let r = run_family(*fam, tier, wall_cap);
+    // families run concurrently (each with its own worker processes)
+    let results: Vec<FamilyResult> = std::thread::scope(|sc| {
+        let handles: Vec<_> = fams.iter().map(|fam| sc.spawn(move || run_family(*fam, tier, wall_cap))).collect();
+        handles.into_iter().map(|h| h.join().expect("family runner thread")).collect()
+    });
+    for (fam, r) in fams.iter().zip(results.into_iter()) {
         if fam.level() == "model_checking" {
             level = "model_checking";
         }
@@ -474,7 +479,8 @@ pub fn run_check(property: &'static str, fams: &[&dyn Family], tier: Tier, verif
         let mut fam_known = 0u64;
         // crashes/hangs of the worker process are findings against C04 (never crashes or hangs)
         for (idx, how) in &r.crashes {
-            let f = json!({"property": property, "class": "worker-died", "site": format!("{}#{}", fam.name(), idx), "detail": how,
+            let case_desc = fam.cases(tier).nth(*idx).map(|c| c.to_string()).unwrap_or_default();
+            let f = json!({"property": property, "class": "worker-died", "site": format!("{};case={}", fam.name(), case_desc), "detail": how,
                 "replay": {"family": fam.name(), "index": idx, "tier": tier.name()}});
             if fam.crash_properties().contains(&property) {
                 let site = f["site"].as_str().unwrap().to_string();
